@@ -1716,6 +1716,13 @@ fn write_leaf(
                         write_primitive(typed, array.values(), levels)
                     }
                 },
+                ArrowDataType::Decimal32(_, _) => {
+                    // a decimal of precision 1 is stored as INT64 (see the schema conversion)
+                    let array = column
+                        .as_primitive::<Decimal32Type>()
+                        .unary::<_, Int64Type>(|v| v as i64);
+                    write_primitive(typed, array.values(), levels)
+                }
                 ArrowDataType::Decimal64(_, _) => {
                     let array = column
                         .as_primitive::<Decimal64Type>()
